@@ -344,10 +344,11 @@ func runLayout(c *core.Ctx, w *World, q *QueryDef, l *Layout, emit bool, ctxBase
 	leafResp := make([][]*protoCommonV1.TaskResponse, len(l.Leaves))
 	for li, leaf := range l.Leaves {
 		leafNames = append(leafNames, leaf.Name)
-		rs, rec, err := RunLeafRec(w, q, leaf, recvNames)
+		rs, rec, plan, err := RunLeafPlan(w, q, leaf, recvNames)
 		if err != nil {
 			panic(err)
 		}
+		op(plan.Op, plan.Out)
 		leafResp[li] = rs
 		for _, r := range rs {
 			if r == nil {
